@@ -135,7 +135,7 @@ pub fn build_txs(req: &J) -> Result<(Vec<Transaction>, Resolver), String> {
                     fee: CoinValue(u128_of(&s["fee"])),
                     covenants: s["covenants"].as_array().unwrap().iter().map(|c| cov_bytes(c.as_str().unwrap())).collect(),
                     data: data_bytes(&s["data"], &res)?,
-                    sigs: vec![],
+                    sigs: s["sigs"].as_array().map(|a| a.iter().map(|x| Bytes::from(hex::decode(x.as_str().unwrap_or("")).unwrap_or_default())).collect()).unwrap_or_default(),
                 })
             })();
             if let Some(tx) = attempt {
